@@ -164,7 +164,45 @@ def h_lookup(ctx, names):
         ctx.check("every aggregate class the models package defines is found by its tag", K is not None and K.__name__ == tag)
 
 
-HARNESSES = dict(childtypes=h_childtypes, child=h_child, lists=h_lists, mutex_decl=h_mutex_decl, lookup=h_lookup)
+def h_in_document(ctx, cls):
+    """the class at its place in a whole document: built, written from the document root and read back from the root (every level
+    of nesting the declarations allow is crossed on the way)"""
+    K = ofxgen.class_by_name(cls)
+    args, kwargs = ofxgen.base_instance(K)
+    kw = dict(kwargs)
+    # one data element of the instance is symbolic
+    for a, conv in K.spec_no_listaggregates.items():
+        if a in kw and isinstance(conv, Types.Element) and not isinstance(conv, (Types.SubAggregate, Types.DateTime, Types.Time, Types.Decimal)):
+            trial = dict(kw)
+            trial[a] = sym_value(ctx, conv, "v")
+            if try_construct(K, args, trial)[0] is not None:
+                kw = trial
+            break
+    inst, _ = try_construct(K, args, kw)
+    if inst is None:
+        return
+    doc = ofxgen.document_holding(inst)
+    ctx.check("the class can be placed in a whole document", doc is not None)
+    if doc is None:
+        return
+    back, cats = try_convert(doc.to_etree())
+    ctx.check("a whole document holding the class is read back by the library's own reader", back is not None)
+    if back is None:
+        return
+    ctx.check("reading back raises no unknown-tag warning", count_unknown(cats) == 0)
+    cur = back
+    for P, a, lst, child in ofxgen.chains_from_root()[K]:
+        if lst:
+            mine = [m for m in list.__iter__(cur) if type(m) is child]
+            cur = mine[-1] if mine else None
+        else:
+            cur = cur.__dict__.get(a)
+        if cur is None:
+            break
+    ctx.check("the class is found at its place in the document that was read back, equal to what was written", cur is not None and same_model(ctx, cur, inst))
+
+
+HARNESSES = dict(in_document=h_in_document, childtypes=h_childtypes, child=h_child, lists=h_lists, mutex_decl=h_mutex_decl, lookup=h_lookup)
 
 META = dict(
     bounds=dict(classes="every aggregate class exported by ofxtools.models (exhaustive in both tiers)",
@@ -189,6 +227,9 @@ def instances(tier, seed):
         for a, c in K.spec_no_listaggregates.items():
             if isinstance(c, Types.Element):
                 mk(f"child[{n}.{a}]", "child", dict(cls=n, attr=a))
+        chain = ofxgen.chains_from_root().get(K)
+        if chain is not None and (full or len(chain) >= 5 or ofxgen.is_core(K)):
+            mk(f"in_document[{n},depth={len(chain)}]", "in_document", dict(cls=n))
         if K.subaggregates:
             mk(f"childtypes[{n}]", "childtypes", dict(cls=n))
         if ofxgen.list_attrs(K):
